@@ -118,6 +118,38 @@ func (b *SimBus) publish(from, topic, msg string) {
 	}
 }
 
+// DeliverNow hands msg to every live subscriber of topic at once, each on a
+// goroutine of its own, and returns those goroutines' ids and a channel per
+// delivery that is closed when the subscriber's callback has returned. For a
+// delivery that has to land inside another operation.
+func (b *SimBus) DeliverNow(from, topic, msg string) (ids []int64, dones []chan struct{}) {
+	b.mu.Lock()
+	var targets []*simSub
+	for _, ep := range b.eps {
+		if ep.closed || b.cut[ep.node] {
+			continue
+		}
+		for _, s := range ep.subs {
+			if s.topic == topic && !s.closed {
+				targets = append(targets, s)
+			}
+		}
+	}
+	b.mu.Unlock()
+	for _, s := range targets {
+		s := s
+		if b.OnDeliver != nil {
+			b.OnDeliver(s.ep.node, topic, msg)
+		}
+		gid := make(chan int64, 1)
+		done := make(chan struct{})
+		go func() { gid <- goid(); s.cb(context.Background(), msg); close(done) }()
+		ids = append(ids, <-gid)
+		dones = append(dones, done)
+	}
+	return ids, dones
+}
+
 type simSub struct {
 	ep     *SimPubSub
 	idx    int
